@@ -135,7 +135,7 @@ func (x *exec) ev(e Expr, env *Env, hint types.Type) *Val {
 			iv := x.ev(n.I, env, types.Typ[types.Int])
 			idx := x.c.Convert(x.term(iv), iv.Typ, types.Typ[types.Int])
 			if xv.Seq != nil {
-				return x.mkVal(Sel(xv.Seq.arr, x.c.IAdd(xv.Seq.off, idx)), u.Elem())
+				return x.mkVal(Sel(xv.Seq.arr, x.c.EIdx(xv.Seq.off, idx)), u.Elem())
 			}
 			return x.load(env.st, &Loc{K: LElem, Slice: x.term(xv), Idx: idx, T: u.Elem()}, u.Elem())
 		case *types.Array:
